@@ -29,8 +29,10 @@ Inductive rstate :=
 | RFree | Queued | Running (w : nat) | Finished | Limbo | Cancelled | Done (status : Z).
 Record req := mkReq { r_loop : nat; r_kind : kind; r_work : wfield; r_st : rstate }.
 
-(* script of a loop thread; callbacks run scripts too (without ORun) *)
-Inductive op := OSubmit (k : kind) | OCancel (r : nat) | ORun.
+(* script of a loop thread; callbacks run scripts too (ORun is skipped there).  uv__work_done
+   never looks at stop_flag: every entry of the detached batch gets its callback in that call;
+   uv_stop only makes the next top-level uv_run return without an iteration. *)
+Inductive op := OSubmit (k : kind) | OCancel (r : nat) | ORun | OStop.   (* OStop = uv_stop(loop) *)
 
 Inductive wpc :=
 | WRelock (slow : bool)        (* parked at uv_mutex_lock(&mutex), line 66 / 134 *)
@@ -54,12 +56,13 @@ Record loopst := mkLoop {
   l_prog : list op;
   l_cb : list op;              (* rest of the callback being executed *)
   l_in_done : bool;
-  l_pc : lpc
+  l_pc : lpc;
+  l_stop : bool                (* loop->stop_flag *)
 }.
 
 Inductive sync :=
 | SLock | SUnlock | SLockQ (l : nat) | SUnlockQ (l : nat)
-| SWait | SWake | SSignal | SPoll | SNop.
+| SWait | SWake | SSignal | SPoll | SNop | SStop.
 
 Inductive event :=
 | ESync (t : nat) (o : sync)
@@ -109,14 +112,15 @@ Definition set_rst s r st :=
 Definition set_rwork s r wf :=
   let q := reqs s r in set_req s r (mkReq (r_loop q) (r_kind q) wf (r_st q)).
 
-Definition lset_wq (x : loopst) v := mkLoop v (l_local x) (l_pending x) (l_active x) (l_prog x) (l_cb x) (l_in_done x) (l_pc x).
-Definition lset_local (x : loopst) v := mkLoop (l_wq x) v (l_pending x) (l_active x) (l_prog x) (l_cb x) (l_in_done x) (l_pc x).
-Definition lset_pending (x : loopst) v := mkLoop (l_wq x) (l_local x) v (l_active x) (l_prog x) (l_cb x) (l_in_done x) (l_pc x).
-Definition lset_active (x : loopst) v := mkLoop (l_wq x) (l_local x) (l_pending x) v (l_prog x) (l_cb x) (l_in_done x) (l_pc x).
-Definition lset_prog (x : loopst) v := mkLoop (l_wq x) (l_local x) (l_pending x) (l_active x) v (l_cb x) (l_in_done x) (l_pc x).
-Definition lset_cb (x : loopst) v := mkLoop (l_wq x) (l_local x) (l_pending x) (l_active x) (l_prog x) v (l_in_done x) (l_pc x).
-Definition lset_in_done (x : loopst) v := mkLoop (l_wq x) (l_local x) (l_pending x) (l_active x) (l_prog x) (l_cb x) v (l_pc x).
-Definition lset_pc (x : loopst) v := mkLoop (l_wq x) (l_local x) (l_pending x) (l_active x) (l_prog x) (l_cb x) (l_in_done x) v.
+Definition lset_wq (x : loopst) v := mkLoop v (l_local x) (l_pending x) (l_active x) (l_prog x) (l_cb x) (l_in_done x) (l_pc x) (l_stop x).
+Definition lset_local (x : loopst) v := mkLoop (l_wq x) v (l_pending x) (l_active x) (l_prog x) (l_cb x) (l_in_done x) (l_pc x) (l_stop x).
+Definition lset_pending (x : loopst) v := mkLoop (l_wq x) (l_local x) v (l_active x) (l_prog x) (l_cb x) (l_in_done x) (l_pc x) (l_stop x).
+Definition lset_active (x : loopst) v := mkLoop (l_wq x) (l_local x) (l_pending x) v (l_prog x) (l_cb x) (l_in_done x) (l_pc x) (l_stop x).
+Definition lset_prog (x : loopst) v := mkLoop (l_wq x) (l_local x) (l_pending x) (l_active x) v (l_cb x) (l_in_done x) (l_pc x) (l_stop x).
+Definition lset_cb (x : loopst) v := mkLoop (l_wq x) (l_local x) (l_pending x) (l_active x) (l_prog x) v (l_in_done x) (l_pc x) (l_stop x).
+Definition lset_in_done (x : loopst) v := mkLoop (l_wq x) (l_local x) (l_pending x) (l_active x) (l_prog x) (l_cb x) v (l_pc x) (l_stop x).
+Definition lset_pc (x : loopst) v := mkLoop (l_wq x) (l_local x) (l_pending x) (l_active x) (l_prog x) (l_cb x) (l_in_done x) v (l_stop x).
+Definition lset_stop (x : loopst) v := mkLoop (l_wq x) (l_local x) (l_pending x) (l_active x) (l_prog x) (l_cb x) (l_in_done x) (l_pc x) v.
 
 Definition sync_ev s t o := emit s (ESync t o).
 
@@ -251,7 +255,8 @@ Fixpoint deliver (c : config) (l : nat) (loc : list nat) (s : state) : state :=
   | [] =>
       let x := lp s l in
       let s := emit s (EAlive l (negb (Nat.eqb (l_active x) 0))) in
-      let x := lset_in_done (lset_local x []) false in
+      (* uv_run: stop_flag is cleared when the run ends (core.c) *)
+      let x := lset_stop (lset_in_done (lset_local x []) false) false in
       settle l (set_loop s l (lset_prog x (tl (l_prog x))))
   | r :: rest =>
       let status := match r_work (reqs s r) with WCancelled => UV_ECANCELED | _ => 0%Z end in
@@ -316,13 +321,17 @@ Definition lstep (c : config) (l aux : nat) (s : state) : option state :=
               Some (set_loop (set_gmutex (sync_ev s l SLock) (Some l)) l (lset_pc x (LCancel2 r)))
             else None
           else Some (advance c l (sync_ev s l SNop))
+      | Some OStop =>
+          Some (advance c l (set_loop (sync_ev s l SStop) l (lset_stop x true)))
       | Some ORun =>
           match l_cb x with
           | _ :: _ => Some (advance c l (sync_ev s l SNop))     (* no uv_run inside a callback *)
           | [] =>
             let s := sync_ev s l SPoll in
-            if Nat.eqb (l_active x) 0 then
-              Some (advance c l (emit s (EAlive l false)))
+            if Nat.eqb (l_active x) 0 || l_stop x then
+              (* uv_run: not alive, or uv_stop pending: no iteration; stop_flag cleared *)
+              Some (advance c l (emit (set_loop s l (lset_stop x false))
+                                      (EAlive l (negb (Nat.eqb (l_active x) 0)))))
             else if l_pending x then
               Some (set_loop s l (lset_pc (lset_pending x false) LWorkDone))
             else Some (advance c l (emit s (EAlive l true)))
@@ -372,7 +381,7 @@ Definition step_state c s (ch : nat * nat) : state :=
 Definition run c s (sched : list (nat * nat)) : state := fold_left (step_state c) sched s.
 
 Definition init_loop (p : list op) : loopst :=
-  mkLoop [] [] false 0 p [] false (match p with [] => LEnd | _ => LReady end).
+  mkLoop [] [] false 0 p [] false (match p with [] => LEnd | _ => LReady end) false.
 Definition init (c : config) (progs : list (list op)) : state :=
   mkSt [] [] 0 0 None 0 (fun _ => mkReq 0 KCpu WFn RFree)
        (fun _ => WRelock false)
